@@ -71,3 +71,19 @@ Qed.
 (* combined post-processor: every post-processor of the chain runs, errors are joined *)
 Lemma gen_pp_combine : g_pp_combine_body = ([1], Fall).
 Proof. reflexivity. Qed.
+
+(* Observer.Process: tick value (1), every pre-processor in turn (2; body: the output of one is the input of the next),
+   the check pipeline (3), the post-processor on the results and the PRE-PROCESSED payloads (4); any error returns *)
+Lemma gen_observer_process : forall tick_err run_err post_err pre_err : bool,
+  g_observer_process tick_err run_err post_err =
+    (if tick_err then ([1], RetO 1) else if run_err then ([1; 2; 3], RetO 1)
+     else if post_err then ([1; 2; 3; 4], RetO 1) else ([1; 2; 3; 4], RetO 0)) /\
+  g_observer_preprocess_body pre_err = (if pre_err then ([1], RetO 1) else ([1], Fall)).
+Proof. intros [|] [|] [|] [|]; split; reflexivity. Qed.
+
+(* proposal filterer: a payload whose work id is already a pending proposal is dropped; final-flow tick: empty payloads
+   the builder returned are dropped *)
+Lemma gen_flow_filters : forall already empty : bool,
+  g_proposal_filterer_body already = (if already then ([], Fall) else ([1], Fall)) /\
+  g_final_flow_tick_body empty = (if empty then ([1], Cont) else ([2], Fall)).
+Proof. intros [|] [|]; split; reflexivity. Qed.
